@@ -34,6 +34,12 @@ CLAIMED = {
   "design_ref": "DESIGN.md §5 C19",
   "note": "No BE host in the image: BE theorems are about the regenerated model; the code runs only in forced-BE-on-LE configuration. RMW BE bodies and float immediates of the translator not yet covered (partial).",
  },
+ "C07": {
+  "technique": "Lean 4 theorems over the literal classifier regenerated from wasmCWriteLiteral + in-process text tie + compile round trip",
+  "text": "For all 2^32/2^64 patterns: integer literals denote the constant; the float classifier (masks regenerated from c.c) selects NaN/inf/-0/finite exactly by IEEE class; NaN (any payload/sign), ±inf and -0 literals denote exactly the given bits; finite floats under the stated assumption that %.9g/%.17g printing plus the compiler's decimal parser round-trip (tested on every run through gcc and clang).",
+  "design_ref": "DESIGN.md §5 C07",
+  "note": "Trusted/assumed: DecRoundTrips (glibc printf + gcc/clang literal parsing correctly rounded); C99 typing of hex literals; INFINITY macro.",
+ },
 }
 
 NOT_YET = {f"C{n:02d}": "check under construction in this round (model/theorems not yet committed); see DESIGN.md §8 build order" for n in range(1, 21)}
